@@ -11,13 +11,13 @@ TEXT = {
     "C19": {
         "technique": "enumeration (all 2^32 day counts in thorough) and rapid draws with an arithmetic oracle (time.Unix) for the read direction, reference decoder + resolution bound for the write direction",
         "design_ref": "DESIGN.md §5 C19",
-        "level_text": "date / timestamp-millis / timestamp-micros / plain long are read through Schema.Codec into time.Time and *time.Time and compared with the instant the specification assigns; written times are decoded by the reference decoder and must be the right calendar day resp. within one unit, and read back within one unit. A second unit puts several such columns into one record in every shape (plain, pointer, slice, slice of pointers, map, map of pointers), also through a file whose header is the serialised schema.",
+        "level_text": "date / timestamp-millis / timestamp-micros / plain long are read through Schema.Codec into time.Time and *time.Time and compared with the instant the specification assigns; written times are decoded by the reference decoder and must be the right calendar day resp. within one unit, and read back within one unit. A second unit puts several such columns into one record in every shape (plain, pointer, slice, slice of pointers, map, map of pointers), also through a file whose header is the serialised schema. Reads also run under process-local zones with daylight saving; the zero time.Time in a required column is an ordinary value; a further unit writes row after row through one codec and one WriteBuf with recurring instants behind columns of changing width.",
         "level_note": "Stored timestamps must equal the time truncated (rounded down) to the unit; instants within 1 ms of the int64-ns limits excluded.",
     },
     "C20": {
         "technique": "model-based property testing with rapid: registration/roundtrip histories, model = latest registration per type, marker bytes read by the reference decoder plus call counters",
         "design_ref": "DESIGN.md §5 C20",
-        "level_text": "Custom types of struct, named-int and named-slice kind (and unregistered look-alikes) are placed in generated type trees at every position; after arbitrary re-registrations the generated schema must show the registered schema at each occurrence, the bytes must carry the latest builder's marker, values must round-trip and stale builders must not run. Registered schemas are plain, [null,T] or [T,null].",
+        "level_text": "Custom types of struct, named-int and named-slice kind (and unregistered look-alikes) are placed in generated type trees at every position; after arbitrary re-registrations the generated schema must show the registered schema at each occurrence, the bytes must carry the latest builder's marker, values must round-trip and stale builders must not run. Registered schemas are plain, [null,T] or [T,null]. A separate unit (own process) meets a type unregistered first, registers it afterwards and requires it to be governed by its codec in the same struct types.",
         "level_note": "Registrations cannot be undone, so each run starts by re-registering a baseline.",
     },
     "C01": {
@@ -41,13 +41,13 @@ TEXT = {
     "C04": {
         "technique": "property-based testing (rapid) with a metamorphic oracle: projected decode vs full decode of the same generated file; Skip vs Read byte consumption",
         "design_ref": "DESIGN.md §5 C04",
-        "level_text": "For generated files (as C03) the full target is projected by deleting, permuting and adding fields at every depth; both decodes must deliver the same records on every surviving path and leave added fields zero. Each datum is also wrapped with a trailing sentinel so that Codec.Skip, Codec.Read and a decode that skips the datum must all consume exactly the datum's bytes.",
+        "level_text": "For generated files (as C03) the full target is projected by deleting, permuting and adding fields at every depth; both decodes must deliver the same records on every surviving path and leave added fields zero. Each datum is also wrapped with a trailing sentinel so that Codec.Skip, Codec.Read and a decode that skips the datum must all consume exactly the datum's bytes. A second unit builds a decoder, adds a column to every record of the same schema value in place, builds again for the same narrow struct and decodes data of the edited schema (also: two decoders from one value, the first one used again afterwards). Wire schemas include tables of 64-300 columns.",
         "level_note": "The full decode is taken as the reference (C03 judges it). Files with values that do not fit the full target are out of domain.",
     },
     "C05": {
         "technique": "exhaustive enumeration of the schema-type x Go-kind x position matrix with guard/canary memory around every destination (fault visibility), differential value oracle from the reference encoder; evaluated in a worker subprocess",
         "design_ref": "DESIGN.md §5 C05",
-        "level_text": "Every cell of the matrix (37 schema types x 56 Go types x {field, *field, **field, slice element, pointer slice element, map value}) is built in every run; where Schema.Codec accepts the pair, in-range and out-of-range datums are decoded into a struct whose neighbours and surroundings are filled with a canary pattern: canaries must be intact and an error-free decode must leave exactly the datum's value. Exhaustive over the matrix, sampled over values. A fixed schema paired with an array of another size or of non-byte elements must be refused when the decoder is built. A second unit passes every form of destination (T, *T, **T, slices, maps, scalars, nil) to ReadFile between guard words.",
+        "level_text": "Every cell of the matrix (37 schema types x 56 Go types x {field, *field, **field, slice element, pointer slice element, map value}) is built in every run; where Schema.Codec accepts the pair, in-range and out-of-range datums are decoded into a struct whose neighbours and surroundings are filled with a canary pattern: canaries must be intact and an error-free decode must leave exactly the datum's value. Exhaustive over the matrix, sampled over values. A fixed schema paired with an array of another size or of non-byte elements must be refused when the decoder is built. A second unit passes every form of destination (T, *T, **T, slices, maps, scalars, nil) to ReadFile between guard words. Fields the schema does not name are also checked one level down (struct decoded in place; pointee prepared by the caller, between guards); a 70-column table with a narrow view is a cell of the matrix; two Go types that print alike are read from one file alternately.",
         "level_note": "A wild store that lands in unrelated heap memory is visible only as a worker crash or a wrong neighbour; rejection of a pair is never demanded, only soundness of accepted pairs.",
     },
     "C06": {
@@ -59,7 +59,7 @@ TEXT = {
     "C07": {
         "technique": "fault enumeration over generated files: every bit of every sync marker / CRC / magic, capped enumeration of compressed payload bits with a computed oracle (reference decompressor), header rewrites, every callback failure index",
         "design_ref": "DESIGN.md §5 C07",
-        "level_text": "For each generated file (reference-written or written by the library) every listed corruption site is applied in turn; sync/CRC/magic damage, missing schema and unknown codec must give an error with only intact records before it, payload damage must give an error exactly when compress/flate or snappy+CRC rejects it, a header without avro.codec must read as uncompressed, and a callback error at record k must stop after k+1 callbacks and come back as the identical error value.",
+        "level_text": "For each generated file (reference-written or written by the library) every listed corruption site is applied in turn; sync/CRC/magic damage, missing schema and unknown codec must give an error with only intact records before it, payload damage must give an error exactly when compress/flate or snappy+CRC rejects it, a header without avro.codec must read as uncompressed, and a callback error at record k must stop after k+1 callbacks and come back as the identical error value. Every callback-failure site is repeated in front of a damaged or missing marker; a file with a block of more than 1 MiB is read intact and with that block's marker damaged.",
         "level_note": "Exhaustive per file over the listed site kinds (payload bits capped at 4096 per file), sampled over files.",
     },
     "C08": {
@@ -71,13 +71,13 @@ TEXT = {
     "C09": {
         "technique": "model-based (stateful) property testing with rapid: call histories as data, model of pending records, reference reader checks the bytes appended by every single call",
         "design_ref": "DESIGN.md §5 C09",
-        "level_text": "Generated encode/flush histories over the real generic Encoder[T] with all block sizes and codecs; after every call the newly appended bytes must be nothing or exactly one exact block of the pending records, emitted in the call where the buffered size reached the block size or in a flush with records pending.",
+        "level_text": "Generated encode/flush histories over the real generic Encoder[T] with all block sizes and codecs; after every call the newly appended bytes must be nothing or exactly one exact block of the pending records, emitted in the call where the buffered size reached the block size or in a flush with records pending. A fifth of the histories feed a second Encoder of the same type turn and turn about with the first; block sizes unrelated to the record size and blocks of 64-256 KiB with mixed record sizes; a third of the histories run over named struct types generated for the run.",
         "level_note": "Encoder[T] is exercised with the catalogue's compile-time types only.",
     },
     "C10": {
         "technique": "model-based property testing with rapid: retention plans over multi-block files, and bank-API histories with an allocation/interning model checked after every step",
         "design_ref": "DESIGN.md §5 C10",
-        "level_text": "Records retained across later blocks and bank closes must keep denoting what they denoted when delivered; Alloc results must be zeroed and disjoint from every live allocation, and live allocations / interned strings must keep their contents through arbitrary interleavings of alloc, intern, extract, close, new buffers and collections.",
+        "level_text": "Records retained across later blocks and bank closes must keep denoting what they denoted when delivered; Alloc results must be zeroed and disjoint from every live allocation, and live allocations / interned strings must keep their contents through arbitrary interleavings of alloc, intern, extract, close, new buffers and collections. A third unit keeps records while the ReadBuf or bank handle they came with is dropped without being closed, forcing collections (finalizers given time to run) between further decodes.",
         "level_note": "Independent of which bank sync.Pool returns; double Close is out of domain.",
     },
     "C11": {
@@ -89,37 +89,37 @@ TEXT = {
     "C12": {
         "technique": "randomised concurrent programs under the Go race detector with a sequential oracle (rapid generates the per-goroutine programs)",
         "design_ref": "DESIGN.md §5 C12",
-        "level_text": "2-8 goroutines run generated mixes of schema generation, codec construction, registration, decode/encode through shared codecs, whole-file reads, bank closing across goroutines and timestamp parsing; each result must equal the precomputed sequential result and the race detector must stay silent. A read may be aborted by its callback, which keeps the record and its bank. A case in which no goroutine starts an operation for 20 s while all of them wait for a lock is reported as a deadlock.",
+        "level_text": "2-8 goroutines run generated mixes of schema generation, codec construction, registration, decode/encode through shared codecs, whole-file reads, bank closing across goroutines and timestamp parsing; each result must equal the precomputed sequential result and the race detector must stay silent. A read may be aborted by its callback, which keeps the record and its bank. A case in which no goroutine starts an operation for 20 s while all of them wait for a lock is reported as a deadlock. The programs also read truncated and damaged files, decode and encode date/timestamp columns through shared codecs and build codecs for types nested two thousand levels deep (also all at once); each case registers a codec for a struct type of its own on one goroutine while another builds codecs containing it, and a build started after the join must honour the registration.",
         "level_note": "Schedules are sampled by the Go scheduler; the detector is happens-before based. Failures do not shrink; the failing programs are replayed 200 times.",
     },
     "C13": {
         "technique": "property-based testing (rapid): generated caller schemas x covering Go types x in-range values; differential oracle (reference decoder reads Codec.Write output) plus Read-after-Write inversion; the same generator and oracle under Go's coverage-guided fuzzer (rapid.MakeFuzz) in thorough",
         "design_ref": "DESIGN.md §5 C13",
-        "level_text": "Caller-written schemas (null first or second, every numeric width, fixed, nested records, arrays, maps, date/timestamp logical types) are paired with generated covering Go structs; every written value must decode with the reference decoder, with an exact fit, to a datum that denotes the Go value, and Codec.Read must invert it.",
+        "level_text": "Caller-written schemas (null first or second, every numeric width, fixed, nested records, arrays, maps, date/timestamp logical types) are paired with generated covering Go structs; every written value must decode with the reference decoder, with an exact fit, to a datum that denotes the Go value, and Codec.Read must invert it. Building a codec must leave the caller's schema value unchanged and a second build from it is used for every other value; decoding goes through one re-used input buffer and ReadBuf; arrays of more than a megabyte and tables of 64-300 columns occur.",
         "level_note": "Domain restricted to unions of null with one type and nullability-aligned targets (see DESIGN). Timestamps must be stored rounded down to the unit.",
     },
     "C14": {
         "technique": "property-based testing (rapid): grammar-based generation of schema documents with layout/extra-attribute metamorphosis, parse/serialise round-trip against a reference parser; native fuzz target in thorough",
         "design_ref": "DESIGN.md §5 C14",
-        "level_text": "Schema trees over every kind and attribute are rendered with random key order, whitespace and unknown attributes; the parsed value must equal the tree, the marshalled bytes must be valid JSON that a reference parser and the library itself read back identically, and one-edit documents that encoding/json rejects must be rejected. String values may be spelled with JSON escapes; after the caller has edited a parsed value in place, parsing the same text again (SchemaFromString, FileSchema) must still give the document's schema; schema bytes handed to NewFileWriter stay unchanged.",
+        "level_text": "Schema trees over every kind and attribute are rendered with random key order, whitespace and unknown attributes; the parsed value must equal the tree, the marshalled bytes must be valid JSON that a reference parser and the library itself read back identically, and one-edit documents that encoding/json rejects must be rejected. String values may be spelled with JSON escapes; after the caller has edited a parsed value in place, parsing the same text again (SchemaFromString, FileSchema) must still give the document's schema; schema bytes handed to NewFileWriter stay unchanged. Every document is also decoded from a stream (json.UnmarshalRead over short reads); names written as full names next to a namespace attribute and field names differing only in case occur.",
         "level_note": "Trusts ref.Render/ref.ParseSchema (cross-checked per case). Documents outside 'what a conformant writer produces' are excluded as listed in DESIGN.md.",
     },
     "C15": {
         "technique": "property-based testing (rapid): generated Go types-as-data over the full kind universe and tag space, compared with an independent model of the documented mapping; recursive types evaluated in a worker subprocess",
         "design_ref": "DESIGN.md §5 C15, §4.5",
-        "level_text": "Generated struct types (all field kinds incl. unsupported ones, every tag combination, registered types in every position) a hand-written catalogue of named types (reuse, recursion, embedding, unexported fields, odd package path) and every one of the 240 (thorough: 600) named struct types generated as Go source from VERIF_SEED for the run are passed to SchemaForType; the result must be an error where the type is inexpressible, must equal an independent model of the documented mapping where it is documented, must be deterministic, structurally valid, stable under marshal/parse and usable by Schema.Codec. Self-referential types run in a subprocess with a watchdog so that a stack overflow is a verdict. After the caller has edited the returned schema in place, generating again must give the same schema.",
+        "level_text": "Generated struct types (all field kinds incl. unsupported ones, every tag combination, registered types in every position) a hand-written catalogue of named types (reuse, recursion, embedding, unexported fields, odd package path) and every one of the 240 (thorough: 600) named struct types generated as Go source from VERIF_SEED for the run are passed to SchemaForType; the result must be an error where the type is inexpressible, must equal an independent model of the documented mapping where it is documented, must be deterministic, structurally valid, stable under marshal/parse and usable by Schema.Codec. Self-referential types run in a subprocess with a watchdog so that a stack overflow is a verdict. After the caller has edited the returned schema in place, generating again must give the same schema. The result of the previous case is looked at again after each generation; structs nested up to 300 levels deep occur.",
         "level_note": "Trusts spec.ModelSchema as the reading of the documented mapping; silent on undocumented kinds. One open known finding (KF-C15-1, named struct defined once per occurrence) is waived for exactly that clause.",
     },
     "C16": {
         "technique": "fault enumeration: every write index of generated call histories fails in turn (fault-injecting io.Writer), differential prefix oracle against the fault-free run",
         "design_ref": "DESIGN.md §5 C16",
-        "level_text": "For each generated Encoder or FileWriter history every write of the fault-free run is made to fail with a partial acceptance: the call that issued it must return an error wrapping the writer's, no earlier call may fail, nothing may panic, and the accepted bytes must be a prefix of the fault-free output (sync markers substituted).",
+        "level_text": "For each generated Encoder or FileWriter history every write of the fault-free run is made to fail with a partial acceptance: the call that issued it must return an error wrapping the writer's, no earlier call may fail, nothing may panic, and the accepted bytes must be a prefix of the fault-free output (sync markers substituted). After a transient failure the history carries on and a later write fails with another error value (also of an uncomparable type): some call must report it and nothing may panic. FileWriter-level histories include blocks above 64 KiB.",
         "level_note": "Exhaustive per history over write indices, sampled over histories; map-free types only.",
     },
     "C17": {
         "technique": "exhaustive enumeration + property-based testing against an independent reference encoder (differential + round-trip oracle)",
         "design_ref": "DESIGN.md §5 C17",
-        "level_text": "Every int16 value, and in the thorough tier every int32 value and every float32 bit pattern, is written with the public codec and compared byte-for-byte with a zig-zag/base-128 and IEEE-754 implementation written from the specification, then read back; int64/float64 get all varint-length boundaries plus rapid draws; candidate varints (all strings of length <=2 and every continuation-bit pattern up to 11 bytes) are classified by the reference and compared with all three integer codecs. Exhaustive over the named finite spaces, sampled elsewhere. The same numbers are also written and read inside slices, maps, behind pointers and in null.* wrappers through a record codec, and every candidate varint is also offered as the tail of a file where a block count belongs.",
+        "level_text": "Every int16 value, and in the thorough tier every int32 value and every float32 bit pattern, is written with the public codec and compared byte-for-byte with a zig-zag/base-128 and IEEE-754 implementation written from the specification, then read back; int64/float64 get all varint-length boundaries plus rapid draws; candidate varints (all strings of length <=2 and every continuation-bit pattern up to 11 bytes) are classified by the reference and compared with all three integer codecs. Exhaustive over the named finite spaces, sampled elsewhere. The same numbers are also written and read inside slices, maps, behind pointers and in null.* wrappers through a record codec, and every candidate varint is also offered as the tail of a file where a block count belongs. Nullable columns over plain 16/32/64-bit fields (what omitempty gives them) are judged by the reference decoder with unnamed neighbours as canaries; candidate varints go through a ReadBuf that began life over a longer input.",
         "level_note": "Trusts the reference varint/IEEE code in harness/ref (self-tested against encoding/binary). Quick tier samples int32/float32 (boundaries + ~2^20 strided values each) instead of enumerating them.",
     },
 }
